@@ -33,14 +33,30 @@ package log
 
 //@ func GoitLogger.WriteHEAD
 //@   returns err
-//@   pure
+//@   modifies fs
 //@   requires [rec] r != nil
+//@   ensures [append] {C11} err == nil && validRecType(r.recType) ==> isFile(fs, headLog(l.rootGoitPath)) && content(fs, headLog(l.rootGoitPath)) == textOf(old(fs), headLog(l.rootGoitPath)) + recLine(r)
+//@   ensures [only] {C11,C03} forall q string :: q != headLog(l.rootGoitPath) && q != logsDir(l.rootGoitPath) ==> fs[q] == old(fs)[q]
 
 //@ func GoitLogger.WriteBranch
 //@   returns err
-//@   pure
+//@   modifies fs
 //@   requires [rec] r != nil
+//@   ensures [append] {C11} err == nil && validRecType(r.recType) ==> isFile(fs, branchLog(l.rootGoitPath, branchName)) && content(fs, branchLog(l.rootGoitPath, branchName)) == textOf(old(fs), branchLog(l.rootGoitPath, branchName)) + recLine(r)
+//@   ensures [only] {C11,C03} forall q string :: q != branchLog(l.rootGoitPath, branchName) && q != logsDir(l.rootGoitPath) && q != pjoin(logsDir(l.rootGoitPath), "refs") && q != branchLogDir(l.rootGoitPath) ==> fs[q] == old(fs)[q]
 
 //@ func GoitLogger.DeleteBranch
 //@   returns err
-//@   pure
+//@   modifies fs
+//@   ensures [removed] {C11} err == nil ==> fs == fsRemove(old(fs), branchLog(l.rootGoitPath, branchName))
+//@   ensures [error] err != nil ==> fs == old(fs)
+
+// ---- log files: appended, never rewritten
+
+//@ pred logsDir(root) := pjoin(root, "logs")
+//@ pred headLog(root) := pjoin(logsDir(root), "HEAD")
+//@ pred branchLogDir(root) := pjoin(pjoin(logsDir(root), "refs"), "heads")
+//@ pred branchLog(root, name) := pjoin(branchLogDir(root), name)
+//@ pred validRecType(t) := t == CommitRecord || t == CheckoutRecord || t == BranchRecord || t == ResetRecord
+//@ pred recLine(r) := hexOrZero(r.from) + " " + hexOrZero(r.to) + " " + r.name + " <" + r.email + "> " + r.unixtime + " " + r.timeDiff + "\t" + recTypeStr(r.recType) + ": " + r.message + "\n"
+//@ pred textOf(f, p) := ite(isFile(f, p), content(f, p), "")
